@@ -36,6 +36,9 @@ let rec parse_block (toks : string list) (stop : string -> bool) : op list * str
       | 'w' -> let (k, n) = pair arg in (OWork (k, n), rest)
       | 'o' -> (OObs, rest)
       | 'y' -> (OYield, rest)
+      | 'x' -> (OThrow (nat_of_int (6 + int_of_string arg mod 6)), rest)   (* a signal raised in this thread = its exception (exception_signals) *)
+      | 'd' -> (OYield, rest)      (* del() of another thread's object: nothing *)
+      | 'D' -> (OYield, rest)      (* the owner releases a published result *)
       | 'z' -> (OYield, rest)          (* z<ms>: sleep — nothing for the machine *)
       | 't' -> (OThrow (num arg), rest)
       | '[' ->
@@ -101,7 +104,7 @@ let () =
       match String.split_on_char '|' line with
       | nm :: sched :: progs ->
         (* a trailing g = the Thread objects are owned by the main thread's collector (nothing for the machine) *)
-        let nm = int_of_string (String.concat "" (String.split_on_char 'n' (String.concat "" (String.split_on_char 's' (String.concat "" (String.split_on_char 'g' nm)))))) in
+        let nm = int_of_string (String.concat "" (String.split_on_char 'x' (String.concat "" (String.split_on_char 'n' (String.concat "" (String.split_on_char 's' (String.concat "" (String.split_on_char 'g' nm)))))))) in
         let progs = List.map parse_prog progs in
         let n = List.length progs in
         let sched = List.map (fun s -> nat_of_int (int_of_string s)) (split_on ',' sched) in
